@@ -1024,6 +1024,48 @@ _FOCUS = None
 
 
 def _w_expand(key):
+    # a note for the parent: which state this process is expanding (a kernel that kills the interpreter would otherwise stall the pool for ever)
+    mk = os.path.join(core.scratch_dir(), "hrunning-%d" % os.getpid())
+    try:
+        with open(mk, "w") as f:
+            f.write(repr(key))
+    except OSError:
+        mk = None
+    try:
+        return _w_expand_inner(key)
+    finally:
+        if mk:
+            try:
+                os.remove(mk)
+            except OSError:
+                pass
+
+
+def _dead_expansions():
+    out = []
+    try:
+        names = os.listdir(core.scratch_dir())
+    except OSError:
+        return out
+    for n in names:
+        if not n.startswith("hrunning-"):
+            continue
+        pid = int(n.split("-")[1])
+        try:
+            os.kill(pid, 0)
+            alive = open("/proc/%d/stat" % pid).read().split(")")[-1].split()[0] != "Z"
+        except (OSError, IndexError):
+            alive = False
+        if not alive:
+            try:
+                out.append(open(os.path.join(core.scratch_dir(), n)).read())
+                os.remove(os.path.join(core.scratch_dir(), n))
+            except OSError:
+                pass
+    return out
+
+
+def _w_expand_inner(key):
     try:
         ctx = expand(key, _CFG, prune=_PRUNE, focus=_FOCUS)
         res = [(key, ctx.viol, ctx.ntrans, ctx.succ, ctx.stats, ctx.dense_outcomes)]
@@ -1074,7 +1116,19 @@ def search(tier, nproc=None, prop=None, max_seconds=None, max_states=200000):
         while frontier:
             nxt = []
             bad_targets = 0
-            for key, viol, ntrans, succ, st, dout in pool.imap(_w_expand, frontier, chunksize=max(1, len(frontier) // (nproc * 8))):
+            it = pool.imap(_w_expand, frontier, chunksize=1)   # (an IMapIterator with next(timeout); chunked imap returns a plain generator)
+            ngot = 0
+            crashed = None
+            while ngot < len(frontier):
+                try:
+                    key, viol, ntrans, succ, st, dout = it.next(timeout=5)
+                except multiprocessing.TimeoutError:
+                    dead = _dead_expansions()
+                    if dead:
+                        crashed = dead[0]
+                        break
+                    continue
+                ngot += 1
                 if isinstance(viol, str):
                     return {"error": viol}
                 transitions += ntrans
@@ -1088,6 +1142,13 @@ def search(tier, nproc=None, prop=None, max_seconds=None, max_states=200000):
                     if k2 not in parent:
                         parent[k2] = (key, opd)
                         nxt.append(k2)
+            if crashed is not None:
+                by_repr = {repr(k): k for k in frontier}
+                ck = by_repr.get(crashed, frontier[0])
+                violations.append({"property": prop or "C06", "site": "crash", "op": {"op": "crash"}, "state": ck, "depth": depth,
+                                   "detail": "the process expanding this state was killed (a fatal signal inside the library): no Python exception, the interpreter died"})
+                capped = True
+                break
             depth += 1 if nxt else 0
             frontier = nxt
             if prop and any(v["property"] == prop for v in violations):
